@@ -147,6 +147,27 @@ static int open_signenv(const blob_t *m, const SM2_KEY *k, int certidx, const bu
 		&ri, &ril, &si, &sil, &cs, &csl, &crls, &crll, &s1, &s1l, &s2, &s2l) != 1) { free(out); return 0; }
 	r = (outlen == content->n && memcmp(out, content->p, outlen) == 0) ? 1 : 2; free(out); return r;
 }
+/* low-level public entry points, called back to back from one frame (wave 3) */
+static int open_env_low(const blob_t *m, int who, const buf_t *content) {
+	int t, ct; const uint8_t *d, *cp = m->p; size_t dl, cl = m->n; uint8_t *out; size_t outlen = 0; const uint8_t *ri, *a1, *a2; size_t ril, l1, l2; int r;
+	const uint8_t *iss, *ser; size_t il, sl;
+	if (cms_content_info_from_der(&t, &d, &dl, &cp, &cl) != 1 || t != OID_cms_enveloped_data) return 0;
+	if (x509_cert_get_issuer_and_serial_number(certs[who], certlens[who], &iss, &il, &ser, &sl) != 1) return 0;
+	out = malloc(m->n + 64);
+	if (cms_enveloped_data_decrypt_from_der(&keys_pub[who], iss, il, ser, sl, &ct, out, &outlen, &ri, &ril, &a1, &l1, &a2, &l2, &d, &dl) != 1) { free(out); return 0; }
+	r = (outlen == content->n && memcmp(out, content->p, outlen) == 0) ? 1 : 2; free(out); return r;
+}
+static int open_signenv_low(const blob_t *m, int who, const buf_t *content) {
+	int t, ct; const uint8_t *d, *cp = m->p; size_t dl, cl = m->n; uint8_t *out; size_t outlen = 0; int r;
+	const uint8_t *ri, *a1, *a2, *cs, *crls, *si; size_t ril, l1, l2, csl, crll, sil; const uint8_t *iss, *ser; size_t il, sl;
+	if (cms_content_info_from_der(&t, &d, &dl, &cp, &cl) != 1 || t != OID_cms_signed_and_enveloped_data) return 0;
+	if (x509_cert_get_issuer_and_serial_number(certs[who], certlens[who], &iss, &il, &ser, &sl) != 1) return 0;
+	out = malloc(m->n + 64);
+	if (cms_signed_and_enveloped_data_decipher_from_der(&keys_pub[who], iss, il, ser, sl, &ct, out, &outlen, &ri, &ril, &a1, &l1, &a2, &l2,
+		&cs, &csl, &crls, &crll, &si, &sil, NULL, 0, NULL, 0, &d, &dl) != 1) { free(out); return 0; }
+	r = (outlen == content->n && memcmp(out, content->p, outlen) == 0) ? 1 : 2; free(out); return r;
+}
+
 static const char *res(int r) { return r == 1 ? "1" : r == 2 ? "OTHER-CONTENT" : "ERR"; }
 
 /* SignedData with zero SignerInfos: the library's own field writers, an empty SET written by hand */
@@ -180,11 +201,14 @@ static long find(const uint8_t *hay, size_t hl, const uint8_t *needle, size_t nl
 typedef struct { const char *name; long off; size_t len; long accepted; } region_t;
 static void set_region(region_t *r, const blob_t *m, const uint8_t *p, size_t n) { if (p && p >= m->p && p + n <= m->p + m->n) { r->off = p - m->p; r->len = n; } }
 /* one region per SignerInfo signature (r[0..max-1]) */
+/* identification regions: issuer and serial of every SignerInfo (idr[0..7]) and of the opener's RecipientInfo (idr[8..9]) */
+static region_t idr[10];
 static void sig_region(region_t *r, size_t max, const blob_t *m, const uint8_t *si, size_t sil) {
 	size_t k = 0;
 	while (sil && k < max) {
 		int v, da, sa; const uint8_t *iss, *ser, *aa, *sig, *ua; size_t il, sl, aal, sgl, ual;
 		if (cms_signer_info_from_der(&v, &iss, &il, &ser, &sl, &da, &aa, &aal, &sa, &sig, &sgl, &ua, &ual, &si, &sil) != 1) return;
+		set_region(&idr[2 * k], m, iss, il); set_region(&idr[2 * k + 1], m, ser, sl);
 		set_region(&r[k++], m, sig, sgl);
 	}
 }
@@ -192,7 +216,7 @@ static void enckey_region(region_t *r, const blob_t *m, const uint8_t *ri, size_
 	while (ril) {
 		int v, pke; const uint8_t *iss, *ser, *par, *ek; size_t il, sl, pl, ekl;
 		if (cms_recipient_info_from_der(&v, &iss, &il, &ser, &sl, &pke, &par, &pl, &ek, &ekl, &ri, &ril) != 1) return;
-		if (sl == seriallens[opener] && !memcmp(ser, serials[opener], sl)) { set_region(r, m, ek, ekl); return; }
+		if (sl == seriallens[opener] && !memcmp(ser, serials[opener], sl)) { set_region(r, m, ek, ekl); set_region(&idr[8], m, iss, il); set_region(&idr[9], m, ser, sl); return; }
 	}
 }
 static void do_tamper(const char *kind, size_t step, size_t off, const buf_t *content) {
@@ -201,7 +225,8 @@ static void do_tamper(const char *kind, size_t step, size_t off, const buf_t *co
 	region_t reg[9] = { { "content", -1, 0, 0 }, { "signature", -1, 0, 0 }, { "enckey", -1, 0, 0 }, { "iv", -1, 0, 0 }, { "ciphertext", -1, 0, 0 }, { "unlisted", -1, 0, 0 },
 		{ "signature", -1, 0, 0 }, { "signature", -1, 0, 0 }, { "signature", -1, 0, 0 } };
 	region_t sigs[4] = { { "signature", -1, 0, 0 }, { "signature", -1, 0, 0 }, { "signature", -1, 0, 0 }, { "signature", -1, 0, 0 } };
-	long tried = 0, crashed = 0, fc_i = -1, fl_i = -1; int fc_b = -1, fl_b = -1; const char *fl_r = NULL;
+	long tried = 0, crashed = 0, fc_i = -1, fl_i = -1; int fc_b = -1, fl_b = -1; const char *fl_r = NULL; long signerid = 0, rcptid = 0; int idk;
+	for (idk = 0; idk < 10; idk++) { idr[idk].off = -1; idr[idk].len = 0; }
 	uint8_t *ct = malloc(content->n + 32); size_t ct_len = 0; SM4_KEY sk;
 	if (!strcmp(kind, "sign")) m = make_signed(s1, 1, OID_cms_data, content);
 	else if (!strcmp(kind, "sign2")) { m = make_signed(s11, 2, OID_cms_data, content); kind = "sign"; }   /* two SignerInfos */
@@ -254,9 +279,11 @@ static void do_tamper(const char *kind, size_t step, size_t off, const buf_t *co
 		while (got < 8) { ssize_t n = read(fds[0], rs + got, (size_t)(8 - got)); if (n <= 0) break; got += n; }
 		close(fds[0]); waitpid(pid, &st, 0);
 		for (k = 0; k < 9; k++) if (k != 5 && reg[k].off >= 0 && (long)i >= reg[k].off && (size_t)i < (size_t)reg[k].off + reg[k].len) ri = (k >= 6 ? 1 : k);
+		for (idk = 0; idk < 10; idk++) if (idr[idk].off >= 0 && (long)i >= idr[idk].off && (size_t)i < (size_t)idr[idk].off + idr[idk].len) ri = 100 + idk;
 		for (b = 0; b < (int)got; b++) {
 			tried++;
 			if (!rs[b]) continue;
+			if (ri >= 100) { if (ri < 108) signerid++; else rcptid++; if (fl_i < 0) { fl_i = (long)i; fl_b = b; fl_r = ri < 108 ? "signerid" : "rcptid"; } continue; }
 			reg[ri].accepted++;
 			if (ri < 3 && fl_i < 0) { fl_i = (long)i; fl_b = b; fl_r = reg[ri].name; }
 		}
@@ -264,6 +291,7 @@ static void do_tamper(const char *kind, size_t step, size_t off, const buf_t *co
 	}
 	printf("tried=%ld", tried);
 	for (k = 0; k < 6; k++) printf(" %s=%ld", reg[k].name, reg[k].accepted);
+	printf(" signerid=%ld rcptid=%ld", signerid, rcptid);
 	printf(" faults=%ld", crashed);
 	if (fl_i >= 0) printf(" first=%s:byte%ld/bit%d", fl_r, fl_i, fl_b);
 	if (fc_i >= 0) printf(" first_fault=byte%ld/bit%d", fc_i, fc_b);
@@ -344,6 +372,28 @@ static void handle(size_t nw, char **w) {
 		if (n == (size_t)-1 || op < 1 || op > NK) { printf("ERR ids"); free(c.p); return; }
 		m = make_env(ids, n, OID_cms_data, &c);
 		if (!m.p) printf("E=ERR"); else printf("E=1 D=%s", res(open_env(&m, key_from(w[3], op), op, &c)));
+		free(m.p); free(c.p);
+	}
+	else if (!strcmp(w[0], "envseq") && nw == 5) {      /* envseq <rcpts> <member> <outsider> <content>: the same frame opens twice */
+		int ids[8]; size_t n = parse_ids(w[1], ids, 8); int mem = atoi(w[2]), out = atoi(w[3]); buf_t c = hex2buf(w[4]); blob_t m; int r1, r2, r3;
+		if (n == (size_t)-1 || mem < 1 || mem > NK || out < 1 || out > NK) { printf("ERR ids"); free(c.p); return; }
+		m = make_env(ids, n, OID_cms_data, &c);
+		if (!m.p) { printf("E=ERR"); free(c.p); return; }
+		r1 = open_env(&m, &keys_pub[mem], mem, &c); r2 = open_env(&m, &keys_pub[out], out, &c); r3 = open_env(&m, &keys_pub[mem], mem, &c);
+		printf("E=1 member=%s outsider=%s member-again=%s", res(r1), res(r2), res(r3));
+		r1 = open_env_low(&m, mem, &c); r2 = open_env_low(&m, out, &c); r3 = open_env_low(&m, out, &c);
+		printf(" low:member=%s outsider=%s outsider-again=%s", res(r1), res(r2), res(r3));
+		free(m.p); free(c.p);
+	}
+	else if (!strcmp(w[0], "signenvseq") && nw == 5) {
+		int ids[8], s1[] = { 1 }; size_t n = parse_ids(w[1], ids, 8); int mem = atoi(w[2]), out = atoi(w[3]); buf_t c = hex2buf(w[4]); blob_t m; int r1, r2;
+		if (n == (size_t)-1 || mem < 1 || mem > NK || out < 1 || out > NK) { printf("ERR ids"); free(c.p); return; }
+		m = make_signenv(s1, 1, ids, n, OID_cms_data, &c, 1);
+		if (!m.p) { printf("E=ERR"); free(c.p); return; }
+		r1 = open_signenv(&m, &keys_pub[mem], mem, &c); r2 = open_signenv(&m, &keys_pub[out], out, &c);
+		printf("E=1 member=%s outsider=%s", res(r1), res(r2));
+		r1 = open_signenv_low(&m, mem, &c); r2 = open_signenv_low(&m, out, &c);
+		printf(" low:member=%s outsider=%s", res(r1), res(r2));
 		free(m.p); free(c.p);
 	}
 	else if (!strcmp(w[0], "enc") && nw == 3) {
